@@ -10,6 +10,7 @@
 import DdnnfVerif.Model.Dispatch
 import DdnnfVerif.Model.ClauseCache
 import DdnnfVerif.Model.MarkState
+import DdnnfVerif.Model.EditCnf
 open Ddnnf
 
 structure St where
@@ -19,6 +20,7 @@ structure St where
   cursor : Cursor := []
   cc : CC.Cache := {}
   ms : MS.St := { ns := #[], md := [] }
+  ec : EC.State := { cur := { clauses := [], nvars := 0, den := [] } }
 
 def parseInts (ws : List String) : List Int := ws.filterMap String.toInt?
 def parseNats (ws : List String) : List Nat := ws.filterMap String.toNat?
@@ -36,6 +38,13 @@ def parseClauses (ws : List String) : List (List Int) :=
 def parseState (ws : List String) : Nat × List (List Int) :=
   let parts := splitBars ws
   (((parts.getD 0 []).headD "0").toNat?.getD 0, parseClauses (parts.getD 1 []))
+def splitSlash (ws : List String) : List (List String) :=
+  (ws.foldr (fun w acc => if w == "/" then [] :: acc else match acc with
+    | cur :: rest => (w :: cur) :: rest
+    | [] => [[w]]) [[]]).filter (!·.isEmpty)
+/-- canonical text of a clause list: literals ascending, clauses as sorted strings -/
+def fmtStored (cs : List (List Int)) : String :=
+  " / ".intercalate (sortBy (fun a b => a < b) (cs.map fun c => " ".intercalate ((sortInts c).map toString)))
 def fmtVerdict : CC.Verdict → String
   | .ok => "ok" | .conflict => "conflict" | .boundary => "boundary" | .rejected => "rejected"
 def fmtSaved (c : CC.Cache) : String :=
@@ -114,6 +123,27 @@ def step (st : St) (line : String) : St × Option String :=
         | .err c (some t) => if norm t == impl then "agree" else s!"DISAGREE model={t}"
         | .err c none => if impl.startsWith s!"E{c} " then "agree" else s!"DISAGREE model=E{c} ?"
       ({ st with cursor := hs.cur, cc := hs.cache.getD st.cc }, some ("msgc " ++ verdict ++ " " ++ fmtSaved (hs.cache.getD st.cc)))
+  | "q" :: "ecinit" :: rest =>
+      -- `q ecinit n | c1 / c2 / ..`: a model loaded from this CNF; prints the stored clause list
+      let (n, cs) := parseState rest
+      let s0 := EC.init cs n
+      ({ st with ec := s0 }, some ("ecinit " ++ fmtStored s0.cur.clauses))
+  | "q" :: "ecedit" :: choice :: "|" :: rest =>
+      -- `q ecedit recompile|splice | a 1 2 / r -3 / ..`: one incremental edit
+      let ops := (splitSlash rest).filterMap fun c => match c with
+        | "a" :: ls => some (ls.filterMap String.toInt?, EC.App.add)
+        | "r" :: ls => some (ls.filterMap String.toInt?, EC.App.rmv)
+        | _ => none
+      let ch := if choice == "splice" then EC.Choice.splice else EC.Choice.recompile
+      let (s', strat) := EC.step st.ec ops ch
+      let name := match strat with
+        | .tautology => "Tautology" | .undo => "Undo" | .unitClause => "UnitClause"
+        | .recompile => "Recompile" | .subDag => "untracked"
+      let body := if s'.tainted then "" else
+        " | " ++ fmtStored s'.cur.clauses ++ " | " ++
+          (if s'.cur.nvars ≤ 10 then String.ofList ((allBits s'.cur.nvars).map fun b =>
+              if satCnf (assignOf b) s'.cur.den then '1' else '0') else "-")
+      ({ st with ec := s' }, some ("ecedit " ++ name ++ body))
   | ["q", "enumreset"] => ({ st with cursor := [] }, some "enumreset ok")
   | "q" :: kind :: args => (st, some (kind ++ " " ++ answer st.nodes st.n kind args))
   | [] => (st, none)
